@@ -254,14 +254,17 @@ class AIOKafkaClient:
                 timeout=self._metadata_max_age_ms / 1000,
             )
 
-            topics = self._topics
-            if self._md_update_fut is None:
-                self._md_update_fut = create_future()
-            ret = await self._metadata_update(self.cluster, topics)
-            # If list of topics changed during metadata update we must update
-            # it again right away.
-            if topics != self._topics:
-                continue
+            while True:
+                topics = self._topics
+                if self._md_update_fut is None:
+                    self._md_update_fut = create_future()
+                ret = await self._metadata_update(self.cluster, topics)
+                # If list of topics changed during metadata update we must
+                # update it again right away. Do not go back to waiting: if
+                # we were woken by the timer `_md_update_waiter` is not set
+                # and nobody can set it while `_md_update_fut` is pending.
+                if topics == self._topics:
+                    break
             # Earlier this waiter was set before sending metadata_request,
             # but that was to avoid topic list changes being unnoticed, which
             # is handled explicitly now.
